@@ -373,6 +373,13 @@ def run(ctx):
                 and p.outcome[1][3][0][0] == "call" and method_name(p.outcome[1][3][0][1]) == "new" for p in exh)
             pre = [e for e in mir.walk_function(b)[0].events if e.kind == "call" and method_name(e.a) == "push"]
             ok = ok and not [e for e in pre if e.blk not in b.loops()[list(b.loops())[0]]]
+        if not b.loops():
+            # xs.iter().map(parse_elem).collect::<Result<Vec<_>, _>>(): nothing to map gives Ok(vec![])
+            rs = [p for p in mir.walk_function(b) if p.outcome[0] == "return"]
+            if len(rs) == 1 and not [e for e in rs[0].events if e.kind in ("guard", "store")]:
+                r = rs[0].outcome[1]
+                ok = (isinstance(r, tuple) and r[0] == "call" and method_name(r[1]) == "collect" and isinstance(r[2][0], tuple) and r[2][0][0] == "call" and method_name(r[2][0][1]) == "map"
+                      and r[2][0][2][0] == T("iter", T("param", 1, b.dbg.get(1, "")), "fwd") and b.ltypes.get(0, "").startswith("std::result::Result<std::vec::Vec<"))
         ck.ob("C13-R1", "layout_parsing_formatting::" + fn, "empty-slice->empty-list", ok)
     pf = ctx.body("layout_parsing_formatting::parse_from")
     v = T("param", 1, pf.dbg.get(1, ""))
